@@ -3,7 +3,6 @@ package props
 import (
 	"fmt"
 	"hash/fnv"
-	"math"
 	"sort"
 	"strconv"
 
@@ -273,9 +272,11 @@ func (m *SkModel) dump(d *mc.Dumper) {
 // fixed probe quantiles of the canonical observation
 var obsQ = []float64{0, 0.01, 0.1, 0.25, 0.5, 0.75, 0.9, 0.99, 1}
 
+// appendF renders a float for canonical observations; -0 and +0 are the same
+// answer (they compare equal), so both are rendered as 0.
 func appendF(b []byte, x float64) []byte {
-	if x == 0 && math.Signbit(x) {
-		return append(b, "-0"...)
+	if x == 0 {
+		return append(b, '0')
 	}
 	return strconv.AppendFloat(b, x, 'g', -1, 64)
 }
